@@ -593,3 +593,47 @@ Theorem transfer_factories : forall (cs : list Q) (omin omax : option Q) (fl : b
     fromgrid_axis (map Q2R cs) (option_map Q2R omin) (option_map Q2R omax).
 Proof. exact (fun cs omin omax fl => conj (nonuniform_axis_transfer cs omin omax fl) (fromgrid_axis_transfer cs omin omax)). Qed.
 Print Assumptions transfer_factories.
+
+(* ------------------------------------------------------------------ *)
+(* T3 (round 3 widening). *)
+(* index lists with negative entries: every entry in [-n, n) is wrapped once (NumPy integer-array
+   indexing), anything outside is an IndexError; if the wrapped list is increasing the result is
+   the valid partition [list_ax] of the theorem getitem_index_list_partial. *)
+Theorem getitem_index_list_with_negative_entries : forall (ax : axis R) (p' : list (axis R)) (l : list Z),
+  valid ax -> Forall valid p' -> (1 <= length l)%nat ->
+  (forall i, In i l -> (- zlen (a_cs ax) <= i < zlen (a_cs ax))%Z) ->
+  zincr (map (wrap_idx (zlen (a_cs ax))) l) ->
+  getitem_list (ax :: p') l = Ok (list_ax ax (map (wrap_idx (zlen (a_cs ax))) l) :: p') /\
+  valid (list_ax ax (map (wrap_idx (zlen (a_cs ax))) l)).
+Proof. exact getitem_list_wrapped. Qed.
+Print Assumptions getitem_index_list_with_negative_entries.
+Theorem getitem_index_list_out_of_range : forall (ax : axis R) (p' : list (axis R)) (l : list Z),
+  (exists i, In i l /\ (i < - zlen (a_cs ax) \/ zlen (a_cs ax) <= i)%Z) ->
+  getitem_list (ax :: p') l = IndexErr.
+Proof. exact getitem_list_out_of_range. Qed.
+
+(* rejected index expressions: two Ellipses -> ValueError; a None entry -> ValueError; more
+   entries than axes -> IndexError (tuples without integers/Ellipsis passing the empty-axes test) *)
+Theorem two_ellipses_are_rejected : forall (its : bool) (a b c : list item) (shape : list Z),
+  norm_index (ETuple (a ++ IEll :: b ++ IEll :: c)) shape its = ValueErr.
+Proof. exact norm_index_two_ellipses. Qed.
+Theorem new_axis_is_rejected : forall (its : bool) (l : list item) (shape : list Z),
+  existsb is_int l = false -> existsb is_ell l = false -> (length shape <= length l)%nat ->
+  empty_slice_check l shape = false -> existsb is_new l = true ->
+  norm_index (ETuple l) shape its = ValueErr.
+Proof. exact norm_index_new_axis. Qed.
+Theorem too_many_indices_are_rejected : forall (its : bool) (l : list item) (shape : list Z),
+  existsb is_int l = false -> existsb is_ell l = false -> (length shape < length l)%nat ->
+  empty_slice_check l shape = false -> existsb is_new l = false ->
+  norm_index (ETuple l) shape its = IndexErr.
+Proof. exact norm_index_too_many. Qed.
+Print Assumptions too_many_indices_are_rejected.
+
+(* squeeze(axis=[...]): the axes that stay are those not selected or with more than one point,
+   in their original order (any carrier) *)
+Theorem squeeze_axis_list : forall (T : Type) (p : list (axis T)) (l : list Z),
+  (forall j, In j l -> (0 <= j < zlen p)%Z) ->
+  squeeze p (AxList l) =
+  Ok (map snd (filter (fun ja => negb (zmem (fst ja) l) || nondegen (snd ja)) (positions 0 p))).
+Proof. exact (@squeeze_list). Qed.
+Print Assumptions squeeze_axis_list.
